@@ -324,6 +324,7 @@ pub fn bitfinex_validate(env: &SocketEnv, map: Map<Key>, requests: &[String], ch
         let (done_tx, done_rx) = tokio::sync::oneshot::channel::<()>();
         let server = async {
             let (tcp, _) = env.listener.accept().await.map_err(|e| format!("accept: {e}"))?;
+            let _ = tcp.set_nodelay(true);
             let mut ws = tokio_tungstenite::accept_async(tcp).await.map_err(|e| format!("ws accept: {e}"))?;
             ws.send(WsMessage::text(r#"{"event":"info","version":2,"serverId":"5b73a436-19ca-4a15-8160-9069bdd7f181","platform":{"status":1}}"#))
                 .await
